@@ -1041,6 +1041,10 @@ C12_SPECIAL += [
     ("empty_where_enum", ALL7, "pub enum T<'l, G, const N: usize> where { A(G, [u8; N]), B { r: &'l G }, C }",
      _twin_body(["T::A(1u8, [2u8])", "T::A(1u8, [3u8])", "T::B { r: &7u8 }", "T::C"])),
     ("where_trailing_comma_only_lifetime", ALL7, "pub struct T<'l, G: 'l>(pub &'l G, pub u8) where 'l: 'l,;", _twin_body(["T::<u8>(&1, 2)", "T::<u8>(&1, 3)", "T::<u8>(&0, 9)"])),
+    # more than ten fields (positions "10", "11" sort before "2" as text)
+    ("wide_tuple_struct", ALL8, 'pub struct T(pub u8, pub u8, pub u8, pub u8, pub u8, pub u8, pub u8, pub u8, pub u8, pub u8, pub u8, pub u8, pub u8);', _twin_body(['T(0, 1, 2, 3, 4, 5, 6, 7, 8, 9, 10, 11, 12)', 'T(0, 1, 9, 3, 4, 5, 6, 7, 8, 2, 10, 11, 12)', 'T(0, 1, 2, 3, 4, 5, 6, 7, 8, 9, 11, 10, 12)', 'T(12, 11, 10, 9, 8, 7, 6, 5, 4, 3, 2, 1, 0)'])),
+    ("wide_named_struct", ALL8, 'pub struct T { pub f0: u8, pub f1: u8, pub f2: u8, pub f3: u8, pub f4: u8, pub f5: u8, pub f6: u8, pub f7: u8, pub f8: u8, pub f9: u8, pub f10: u8, pub f11: u8 }', _twin_body(['T { f0: 0, f1: 1, f2: 2, f3: 3, f4: 4, f5: 5, f6: 6, f7: 7, f8: 8, f9: 9, f10: 10, f11: 11 }', 'T { f0: 0, f1: 1, f2: 9, f3: 3, f4: 4, f5: 5, f6: 6, f7: 7, f8: 8, f9: 2, f10: 10, f11: 11 }', 'T { f0: 0, f1: 1, f2: 2, f3: 3, f4: 4, f5: 5, f6: 6, f7: 7, f8: 8, f9: 9, f10: 11, f11: 10 }', 'T { f0: 11, f1: 10, f2: 9, f3: 8, f4: 7, f5: 6, f6: 5, f7: 4, f8: 3, f9: 2, f10: 1, f11: 0 }'])),
+    ("wide_enum_variants", ALL7, 'pub enum T { A(u8, u8, u8, u8, u8, u8, u8, u8, u8, u8, u8, u8), B { g0: u8, g1: u8, g2: u8, g3: u8, g4: u8, g5: u8, g6: u8, g7: u8, g8: u8, g9: u8, g10: u8 }, C }', _twin_body(['T::A(0, 1, 2, 3, 4, 5, 6, 7, 8, 9, 10, 11)', 'T::A(0, 1, 9, 3, 4, 5, 6, 7, 8, 2, 10, 11)', 'T::A(0, 1, 2, 3, 4, 5, 6, 7, 8, 9, 11, 10)', 'T::A(11, 10, 9, 8, 7, 6, 5, 4, 3, 2, 1, 0)', 'T::B { g0: 0, g1: 1, g2: 2, g3: 3, g4: 4, g5: 5, g6: 6, g7: 7, g8: 8, g9: 9, g10: 10 }', 'T::B { g0: 0, g1: 1, g2: 9, g3: 3, g4: 4, g5: 5, g6: 6, g7: 7, g8: 8, g9: 2, g10: 10 }', 'T::B { g0: 0, g1: 1, g2: 2, g3: 3, g4: 4, g5: 5, g6: 6, g7: 7, g8: 8, g9: 9, g10: 11 }', 'T::C'])),
     ("macro_rules_nested_two_levels", ALL8,
      "macro_rules! outer { ($name:ident, $t:ty) => { inner!($name, $t, u8); } } macro_rules! inner { ($name:ident, $t:ty, $u:ty) => { @HEAD@ pub struct $name(pub $t, pub $u); } } outer!(T, u32);",
      _twin_body(["T(1, 2)", "T(1, 3)", "T(0, 9)"])),
